@@ -32,7 +32,13 @@ RULE = ("Meshes: generated polylines (paths, cycles, trees, random simple graphs
         "iterators advanced in lock-step, the first tree traversed again after a second tree exists. Several forest objects alive at once "
         "(a second one on the same mesh, another one on a different small mesh): the first is fully re-inspected afterwards. A few "
         "meshes above 1000 elements (size regime). Returned lists (forest.edges) are mutated and re-read; dict weights in both "
-        "insertion orders.")
+        "insertion orders. Library switches drawn per case: sort_neighborhoods, display_duplicate_attribute_warning, and "
+        "complete_edges_from_faces / complete_faces_from_cells switched off with every edge (and cell face) declared explicitly. Index rows "
+        "as lists or numpy rows of dtype int64/int32/int16/uint8; roots and excluded ids as python ints or (narrow) numpy integers; "
+        "exclusion sets as set or frozenset; dict weights as float / int / np.float32 / np.float64 / np.uint8 values; sparse and dense "
+        "weight attributes with a non-zero default and unwritten entries; MST geometry translated far from the origin (1e3..1e6 x size) and "
+        "anisotropically scaled; an invalid traverse() call (bad order / uncomputed tree) that raises is followed by ordinary use. Face "
+        "trees: pairs of faces sharing two edges with exactly one of them forbidden are generated on purpose.")
 ASSUMPTIONS = ["meshes are what the data model represents (simple 1-skeleton, manifold surfaces, conforming tet meshes); "
                "exclusion sets contain valid edge / face indices; dict weights give a finite float for every edge",
                "a volume mesh's boundary edges are the edges of its boundary faces (VolumeMesh.is_edge_on_border)"]
@@ -227,8 +233,18 @@ def draw_root(draw, n):
 
 def draw_history(draw, n):
     """fields shared by the tree sub-checks: a second tree on the same mesh object, numpy-typed roots, warm-up queries"""
-    return {"root2": draw(st.integers(0, n - 1)) if draw(st.integers(0, 2)) > 0 else None,
-            "root_np": draw(st.integers(0, 3)) == 0, "warm": draw(st.integers(0, 2)) == 0}
+    h = {"root2": draw(st.integers(0, n - 1)) if draw(st.integers(0, 2)) > 0 else None,
+         "root_np": draw(st.integers(0, 3)) == 0, "warm": draw(st.integers(0, 2)) == 0}
+    h.update(draw_forms(draw))
+    return h
+
+
+def draw_forms(draw):
+    """argument / container forms and library-wide switches"""
+    return {"idx": draw(st.sampled_from(["list", "list", "int64", "int32", "int16", "uint8"])),
+            "np_int": draw(st.sampled_from(["int64", "int64", "int32", "uint8", "uint16"])),
+            "ids_np": draw(st.integers(0, 3)) == 0, "frozen": draw(st.integers(0, 3)) == 0,
+            "explicit": draw(st.integers(0, 4)) == 0, "dup_warn": draw(st.booleans()), "bad_call": draw(st.integers(0, 2)) == 0}
 
 
 def scaled(V, s):
@@ -266,11 +282,14 @@ def mst_case(draw):
                 "zeroes": st.sampled_from([0.0, 0.0, 1.0])}[style]
         weights = []
         for e in mod.edge_keys:
-            if wm == "attr" and draw(st.integers(0, 3)) == 0:
-                continue                                    # left unset: a sparse attribute reads its default 0.0
+            if wm in ("attr", "attr_dense") and draw(st.integers(0, 3)) == 0:
+                continue                                    # left unwritten: the attribute reads its own default value there
             weights.append([e[0], e[1], draw(vals)])
     c = {"mesh": mc, "root": draw_root(draw, n), "avoid_boundary": draw(st.integers(0, 2)) == 0,
          "weights_mode": wm, "weights": weights, "style": style, "sort": draw(st.booleans())}
+    # default value of the weight attribute (None = the type's default 0.0); unwritten edges weigh this much
+    c["attr_default"] = draw(st.sampled_from([None, None, 0.0, 1.5, 2.0, 7.0, -1.0, 100.0])) if wm in ("attr", "attr_dense") else None
+    c["val_type"] = draw(st.sampled_from(["float", "float", "int", "float32", "float64", "uint8"])) if wm == "dict" else "float"
     c.update(draw_history(draw, n))
     c["mode2"] = draw(st.sampled_from(["same", "same", "one", "length"]))
     c["dict_rev"] = draw(st.booleans())
@@ -279,6 +298,16 @@ def mst_case(draw):
     if sc != 1.0:
         mc["V"] = scaled(mc["V"], sc)
     c["scale"] = sc
+    # anisotropic scaling and a translation far from the origin (relative to the size of the mesh, ~1..10 x sc)
+    an = draw(st.sampled_from([None, None, None, [1.0, 3.0, 0.25], [10.0, 1.0, 1.0], [0.01, 1.0, 100.0]]))
+    if an is not None:
+        mc["V"] = [[float(x) * a for x, a in zip(v, an)] for v in mc["V"]]
+    c["aniso"] = an
+    off = draw(st.sampled_from([0.0, 0.0, 0.0, 1e3, 1e5, 1e6]))
+    if off:
+        d = draw(st.sampled_from([[1.0, 1.0, 1.0], [1.0, -0.5, 0.25], [0.0, 0.0, -1.0]]))
+        mc["V"] = [[float(x) + off * sc * t for x, t in zip(v, d)] for v in mc["V"]]
+    c["offset"] = off
     c["int_coords"] = draw(st.integers(0, 2)) == 0 and all(float(x) == int(x) and abs(x) < 2 ** 40 for v in mc["V"] for x in v)
     # an edge attribute called "length" already stored on the mesh before the tree is built
     la = draw(st.sampled_from(["none", "none", "fresh", "user", "stale", "stale"]))
@@ -302,9 +331,25 @@ def face_tree_case(draw):
         # forbidding border edges changes nothing: there is no face on the other side
         be = sorted(mod.border_edges)
         forb = forb + [list(e) for e in be[:draw(st.integers(0, 3))]]
+    dbl = double_adjacencies(links)
+    if dbl and draw(st.booleans()):
+        # two faces sharing two (or more) edges: forbid all but one of the shared edges, the faces stay adjacent
+        pair = sorted(dbl)[draw(st.integers(0, len(dbl) - 1))]
+        shared = dbl[pair]
+        keep = draw(st.integers(0, len(shared) - 1))
+        forb = [e for e in (forb or []) if tuple(e) not in set(shared)] + [list(e) for i, e in enumerate(shared) if i != keep]
+        mode = mode + "+double"
     c = {"mesh": mc, "root": draw_root(draw, n), "forbidden": forb, "mode": mode, "sort": draw(st.booleans())}
     c.update(draw_history(draw, n))
     return c
+
+
+def double_adjacencies(links):
+    """{(f1, f2): [carrier keys]} for element pairs joined by more than one link"""
+    by = {}
+    for a, b, c in links:
+        by.setdefault(key(a, b), []).append(c)
+    return {k: sorted(v) for k, v in by.items() if len(v) > 1}
 
 
 @st.composite
@@ -326,18 +371,24 @@ def forest_case(draw):
     what = draw(st.sampled_from(["edge", "edge", "face", "face", "cell"]))
     if what == "edge":
         mc = draw(any_mesh())
-        return {"what": what, "mesh": mc, "forbidden": None, "mode": "none", "sort": draw(st.booleans()),
-                "twice": draw(st.booleans()), "warm": draw(st.integers(0, 2)) == 0}
+        c = {"what": what, "mesh": mc, "forbidden": None, "mode": "none", "sort": draw(st.booleans()),
+             "twice": draw(st.booleans()), "warm": draw(st.integers(0, 2)) == 0}
+        c.update(draw_forms(draw))
+        return c
     if what == "face":
         mc = draw(surface_meshes())
         mod = Model(mc)
         n, links = mod.links("face")
         mode, forb = draw_exclusion(draw, n, links)
-        return {"what": what, "mesh": mc, "forbidden": forb, "mode": mode, "sort": draw(st.booleans()),
-                "twice": draw(st.booleans()), "warm": draw(st.integers(0, 2)) == 0}
+        c = {"what": what, "mesh": mc, "forbidden": forb, "mode": mode, "sort": draw(st.booleans()),
+             "twice": draw(st.booleans()), "warm": draw(st.integers(0, 2)) == 0}
+        c.update(draw_forms(draw))
+        return c
     mc = draw(volume_meshes())
-    return {"what": what, "mesh": mc, "forbidden": None, "mode": "none", "sort": draw(st.booleans()),
-            "twice": draw(st.booleans()), "warm": draw(st.integers(0, 2)) == 0}
+    c = {"what": what, "mesh": mc, "forbidden": None, "mode": "none", "sort": draw(st.booleans()),
+         "twice": draw(st.booleans()), "warm": draw(st.integers(0, 2)) == 0}
+    c.update(draw_forms(draw))
+    return c
 
 
 # ============================================================================================ building
@@ -348,27 +399,39 @@ def build(case, ctx):
     M.config.sort_neighborhoods = bool(case.get("sort", True))
     mc = case["mesh"]
     mod = Model(mc)
+    from mouette.mesh.mesh_data import RawMeshData
+    M.config.display_duplicate_attribute_warning = bool(case.get("dup_warn", False))
+    ctx.label("dup_warn=" + str(bool(case.get("dup_warn", False))))
+    # index rows: python lists or numpy rows of a (narrow) integer dtype that can hold every vertex id
+    idx = case.get("idx", "list")
+    if idx != "list" and len(mc["V"]) > {"int64": 2 ** 62, "int32": 2 ** 31 - 1, "int16": 2 ** 15 - 1, "uint8": 255}[idx]:
+        idx = "list"
+    ctx.label("index-rows=" + idx)
+    row = (lambda r: list(int(x) for x in r)) if idx == "list" else (lambda r: np.array(r, dtype=idx))
+    raw = RawMeshData()
     if case.get("int_coords"):
-        # integer-typed coordinates (the containers then hold int64 vectors)
-        from mouette.mesh.mesh_data import RawMeshData
-        raw = RawMeshData()
-        raw.vertices += [[int(x) for x in v] for v in mc["V"]]
-        if mc["kind"] == "polyline":
-            raw.edges += [tuple(e) for e in mc["E"]]
-            m = M.mesh.PolyLine(raw)
-        elif mc["kind"] == "surface":
-            raw.faces += [list(f) for f in mc["F"]]
-            m = M.mesh.SurfaceMesh(raw)
-        else:
-            raw.cells += [list(c) for c in mc["C"]]
-            m = M.mesh.VolumeMesh(raw)
+        raw.vertices += [[int(x) for x in v] for v in mc["V"]]       # integer-typed coordinates (int64 vectors)
         ctx.label("coords=int-typed")
-    elif mc["kind"] == "polyline":
-        m = polyline_from(mc["V"], mc["E"])
-    elif mc["kind"] == "surface":
-        m = surface_from(mc["V"], mc["F"])
     else:
-        m = volume_from(mc["V"], mc["C"])
+        raw.vertices += [list(map(float, v)) for v in mc["V"]]
+    explicit = bool(case.get("explicit")) and mc["kind"] != "polyline"
+    if explicit:
+        # edges (and the faces of cells) are declared by the caller instead of being completed by the library
+        M.config.complete_edges_from_faces = False
+        M.config.complete_faces_from_cells = False
+        ctx.label("explicit-edges-faces")
+        raw.edges += [tuple(int(x) for x in e) if idx == "list" else row(e) for e in mod.edge_keys]
+    if mc["kind"] == "polyline":
+        raw.edges += [tuple(int(x) for x in e) if idx == "list" else row(e) for e in mc["E"]]
+        m = M.mesh.PolyLine(raw)
+    elif mc["kind"] == "surface":
+        raw.faces += [row(f) for f in mc["F"]]
+        m = M.mesh.SurfaceMesh(raw)
+    else:
+        if explicit:
+            raw.faces += [row(f) for f in sorted(mod.face_keys)]
+        raw.cells += [row(c) for c in mc["C"]]
+        m = M.mesh.VolumeMesh(raw)
     if case.get("warm"):
         # the mesh object has been used before: connectivity and boundary caches exist, a persistent edge length is stored
         ctx.label("warm-mesh")
@@ -551,6 +614,11 @@ def check_traverse_histories(ctx, tag, obj):
 
     def run():
         out = {}
+        try:
+            list(obj.traverse("breadth-first"))        # not an accepted order: raises; ordinary use must go on afterwards
+        except Exception:
+            pass
+        out["after-bad-order-BFS"] = (list(obj.traverse("BFS")), refB)
         it = obj.traverse("BFS")                       # abandoned half-way, iterator object kept alive
         head = [next(it) for _ in range(k)]
         out["after-abandoned-DFS"] = (list(obj.traverse("DFS")), refD)
@@ -649,7 +717,20 @@ def np_root(case, r):
     """the root as the caller would pass it: plain int, or a numpy integer (e.g. taken out of an index array)"""
     if r is None:
         return None
-    return np.int64(r) if case.get("root_np") else int(r)
+    if not case.get("root_np"):
+        return int(r)
+    dt = case.get("np_int", "int64")
+    if r > {"int64": 2 ** 62, "int32": 2 ** 31 - 1, "uint16": 65535, "uint8": 255}[dt]:
+        dt = "int64"
+    return np.dtype(dt).type(r)
+
+
+def id_set(case, ids):
+    """the exclusion argument as the caller passes it: None, a set or a frozenset, of python ints or numpy integers"""
+    if ids is None:
+        return None
+    items = [np.int64(i) for i in ids] if case.get("ids_np") else [int(i) for i in ids]
+    return frozenset(items) if case.get("frozen") else set(items)
 
 
 def snapshot_tables(tree):
@@ -662,6 +743,8 @@ def run_trees(ctx, tag, case, n, make, adm1, adm2, argset, what):
     snap = None if argset is None else set(argset)
     if case["root"] is not None and case.get("root_np"):
         ctx.label("root-type=numpy")
+    if argset is not None:
+        ctx.label("exclusion-arg=" + type(argset).__name__ + ("-of-numpy-ints" if case.get("ids_np") else ""))
 
     def unchanged(t):
         if argset is None:
@@ -672,6 +755,12 @@ def run_trees(ctx, tag, case, n, make, adm1, adm2, argset, what):
     ok, tree = ctx.call(tag + "construct", lambda: make(np_root(case, case["root"]), False))
     if not ok:
         return
+    if case.get("bad_call"):
+        ctx.label("traverse-before-compute")
+        try:
+            list(tree.traverse("BFS"))          # refused (or at most the root): must leave the tree usable
+        except Exception:
+            pass
     ok, r = ctx.call(tag + "compute", tree)
     if not ok:
         return
@@ -709,7 +798,9 @@ def fn_edge_tree(case, ctx):
     n, links, adm, avoid = admissible_edge_links(mod, case["avoid"], case["avoid_boundary"])
     ctx.label("avoid=" + case["avoid_mode"], "avoid_boundary=" + str(bool(case["avoid_boundary"])))
     label_common(ctx, n, links, adm, case["root"], bool(avoid & set(c for _, _, c in links)))
-    avoid_ids = None if case["avoid"] is None else set(eid[key(e)] for e in case["avoid"])
+    avoid_ids = id_set(case, None if case["avoid"] is None else [eid[key(e)] for e in case["avoid"]])
+    if mod.kind == "surface" and case["avoid_boundary"] and case["avoid"] is None and not case.get("sort", True):
+        ctx.label("avoid-boundary-only+unsorted-fans")
     ab1 = bool(case["avoid_boundary"])
     ab2 = bool(case.get("avoid_boundary2", ab1))
     _, _, adm2, _ = admissible_edge_links(mod, case["avoid"], ab2)
@@ -820,6 +911,7 @@ def fn_mst(case, ctx):
     ctx.label("weights=" + wm, "style=" + case["style"], "avoid_boundary=" + str(bool(case["avoid_boundary"])))
     sc = float(case.get("scale", 1.0))
     ctx.label("scale=%g" % sc)
+    ctx.label("offset/size=%g" % float(case.get("offset", 0.0)), "anisotropic" if case.get("aniso") else "isotropic")
     label_common(ctx, n, links, adm, case["root"], bool(avoid & set(c for _, _, c in links)))
     # history before the tree: an edge attribute named "length" already lives on the mesh
     la = case.get("length_attr", "none")
@@ -852,18 +944,41 @@ def fn_mst(case, ctx):
     elif wm == "length":
         w, arg = w_len, "length"
     else:
-        w = {e: 0.0 for e in mod.edge_keys}
+        dflt = case.get("attr_default")
+        vt = case.get("val_type", "float")
+
+        def conv(x):
+            """the weight value as the caller stores it in a dict"""
+            x = float(x)
+            if vt == "int" and x == int(x):
+                return int(x)
+            if vt == "float32":
+                return np.float32(x)
+            if vt == "float64":
+                return np.float64(x)
+            if vt == "uint8" and x == int(x) and 0 <= x <= 255:
+                return np.uint8(x)
+            return x
+        w = {e: (0.0 if dflt is None else float(dflt)) for e in mod.edge_keys}
         for a, b, x in case["weights"]:
-            w[key(a, b)] = float(x)
+            w[key(a, b)] = float(conv(x)) if wm == "dict" else float(x)
         if wm == "dict":
+            ctx.label("dict-values=" + vt)
             order = list(reversed(mod.edge_keys)) if case.get("dict_rev") else list(mod.edge_keys)
-            arg = {eid[e]: w[e] for e in order}                 # insertion order of the dict must not matter
+            cw = {tuple(key(a, b)): conv(x) for a, b, x in case["weights"]}
+            arg = {eid[e]: cw[e] for e in order}                # insertion order of the dict must not matter
             ctx.label("dict-order=" + ("reversed" if case.get("dict_rev") else "sorted"))
             arg_snapshot = lambda: dict(arg)
         else:
-            arg = m.edges.create_attribute("c10_weight", float, dense=(wm == "attr_dense"))
+            if dflt is None:
+                arg = m.edges.create_attribute("c10_weight", float, dense=(wm == "attr_dense"))
+            else:
+                arg = m.edges.create_attribute("c10_weight", float, dense=(wm == "attr_dense"), default_value=float(dflt))
             for a, b, x in case["weights"]:
                 arg[eid[key(a, b)]] = float(x)
+            unwritten = len(mod.edge_keys) - len(case["weights"])
+            ctx.label("attr-default=" + ("type-default" if dflt is None else "zero" if dflt == 0 else "non-zero")
+                      + ("+unwritten" if unwritten else "+all-written"))
             arg_snapshot = lambda: [float(arg[e]) for e in range(nE)]
     arg_snap = arg_snapshot()
     vals = [w[c] for _, _, c in adm]
@@ -921,7 +1036,12 @@ def fn_face_tree(case, ctx):
     adm = [(a, b, c) for a, b, c in links if c not in forb]
     ctx.label("forbidden=" + case["mode"])
     label_common(ctx, n, links, adm, case["root"], bool(forb & set(c for _, _, c in links)))
-    forb_ids = None if case["forbidden"] is None else set(eid[key(e)] for e in case["forbidden"])
+    forb_ids = id_set(case, None if case["forbidden"] is None else [eid[key(e)] for e in case["forbidden"]])
+    dbl = double_adjacencies(links)
+    if dbl:
+        ctx.label("faces-sharing-two-edges")
+        if any(0 < len([e for e in sh if e in forb]) < len(sh) for sh in dbl.values()):
+            ctx.label("faces-sharing-two-edges:partly-forbidden")
     make = lambda root, second: trees.FaceSpanningTree(m, root, forb_ids)
     run_trees(ctx, "face_tree:", case, n, make, adm, adm, forb_ids, "forbidden_edges")
 
@@ -938,7 +1058,7 @@ def fn_cell_tree(case, ctx):
     adm = [(a, b, c) for a, b, c in links if c not in forb]
     ctx.label("forbidden=" + case["mode"])
     label_common(ctx, n, links, adm, case["root"], bool(forb & set(c for _, _, c in links)))
-    forb_ids = None if case["forbidden"] is None else set(fid[key(f)] for f in case["forbidden"])
+    forb_ids = id_set(case, None if case["forbidden"] is None else [fid[key(f)] for f in case["forbidden"]])
     make = lambda root, second: trees.CellSpanningTree(m, root, forb_ids)
     run_trees(ctx, "cell_tree:", case, n, make, adm, adm, forb_ids, "forbidden_faces")
 
@@ -961,7 +1081,7 @@ def fn_forest(case, ctx):
         n, links = mod.links("face")
         forb = set(key(e) for e in (case["forbidden"] or []))
         adm = [(a, b, c) for a, b, c in links if c not in forb]
-        forb_ids = None if case["forbidden"] is None else set(eid[key(e)] for e in case["forbidden"])
+        forb_ids = id_set(case, None if case["forbidden"] is None else [eid[key(e)] for e in case["forbidden"]])
         mk = lambda: trees.FaceSpanningForest(m, forb_ids)
         excl = bool(forb & set(c for _, _, c in links))
     else:
@@ -1107,9 +1227,9 @@ def self_test():
 
 SUBCHECKS = [
     SubCheck("edge_tree", edge_tree_case(), fn_edge_tree, quick=1500, thorough=2500),
-    # short watchdog: a normal case takes milliseconds; if the orientation loop of the MST ever runs on a cyclic edge set it grows its
+    # if the orientation loop of the MST ever runs on a cyclic edge set it grows its
     # queue without bound (up to ~0.7 GB/s), so it must be stopped long before 8-16 workers exhaust the machine (see memory_cap)
-    SubCheck("edge_mst", mst_case(), fn_mst, quick=1500, thorough=2500, watchdog=(2, 3)),
+    SubCheck("edge_mst", mst_case(), fn_mst, quick=1500, thorough=2500, watchdog=(10, 30)),
     SubCheck("face_tree", face_tree_case(), fn_face_tree, quick=1100, thorough=2000),
     SubCheck("cell_tree", cell_tree_case(), fn_cell_tree, quick=700, thorough=1500),
     SubCheck("forests", forest_case(), fn_forest, quick=1100, thorough=2000),
